@@ -88,8 +88,14 @@ impl<'a> Reader<'a> {
                 #[warn(unsafe_code)]
                 let mut builder = unsafe { UserValue::builder_unzeroed(real_val_len as usize) };
 
-                lz4_flex::decompress_into(&raw_data, &mut builder)
+                let decompressed_len = lz4_flex::decompress_into(&raw_data, &mut builder)
                     .map_err(|_| crate::Error::Decompress(self.blob_file.0.meta.compression))?;
+
+                // NOTE: The length field is not covered by the checksum, and the buffer is not zeroed,
+                // so a wrong length must not be allowed to expose its uninitialized tail
+                if decompressed_len != real_val_len as usize {
+                    return Err(crate::Error::Decompress(self.blob_file.0.meta.compression));
+                }
 
                 builder.freeze().into()
             }
